@@ -2,6 +2,7 @@ package checks
 
 import (
 	"bytes"
+	"compress/gzip"
 	"context"
 	"encoding/base64"
 	"encoding/json"
@@ -197,6 +198,22 @@ func (f *c19Fixture) webRequest(r *C19Req) (served bool, detail string, err erro
 	}
 	defer resp.Body.Close()
 	body, _ := io.ReadAll(resp.Body)
+	// a refusal status does not prove that nothing was disclosed: a handler that
+	// writes the refusal and carries on sends the (gzip-compressed) result as the
+	// body of the 403/307, without the Content-Encoding header
+	if len(body) > 2 && body[0] == 0x1f && body[1] == 0x8b {
+		if gz, gerr := gzip.NewReader(bytes.NewReader(body)); gerr == nil {
+			if plain, _ := io.ReadAll(gz); len(plain) > 0 {
+				body = plain
+			}
+		}
+	} else if i := bytes.Index(body, []byte{0x1f, 0x8b}); i > 0 {
+		if gz, gerr := gzip.NewReader(bytes.NewReader(body[i:])); gerr == nil {
+			if plain, _ := io.ReadAll(gz); len(plain) > 0 {
+				body = append(body[:i:i], plain...)
+			}
+		}
+	}
 	hasRows := strings.Contains(string(body), `"Rows"`) || strings.Contains(string(body), `"fa"`)
 	served = resp.StatusCode == 200 || resp.StatusCode == 202 || hasRows
 	return served, fmt.Sprintf("status %d, %d body bytes, rows in body: %v", resp.StatusCode, len(body), hasRows), nil
